@@ -3,13 +3,13 @@ a rejected schema leaves no generated files.
 
 Proved (Lean, `Sbepp.Properties.C09`): every unchecked-access site extracted
 from the sbeppc sources is classified in the model's guard table; the pipeline
-model never returns `crash` outside the unguarded sites and not at all when the
-nesting depth stays below the stack limit; include resolution terminates for
-EVERY file system (the include stack bounds the nesting of parsers by the
-number of files) and a cycle is a diagnostic; a `diag` outcome of the model
-implies that no file was written unless the diagnostic is `write_file`'s own
-failure.  Still refuted (open findings): deep nesting, files left behind after
-an output file could not be opened.
+model never returns `crash` when the
+guard table's claims hold (`run_no_crash`, full strength: nesting deeper than 64
+is a diagnostic); include resolution terminates for EVERY file system (the
+include stack bounds the nesting of parsers by the number of files) and a cycle
+is a diagnostic; a `diag` outcome of the model implies that no file was written
+unless the diagnostic is `write_file`'s own failure.  Still refuted (open
+finding): files left behind after an output file could not be opened.
 
 Observed (this file): a hardened sbeppc (ASan+UBSan, libstdc++ assertions,
 `assert` on) on a structure-aware garbling stream and argv combinations, and on
@@ -34,19 +34,16 @@ THEOREMS = [
     'Sbepp.Properties.C09.unchecked_sites_covered',
     'Sbepp.Properties.C09.guard_table_nodup',
     'Sbepp.Properties.C09.every_site_classified',
-    'Sbepp.Properties.C09.trigger_sites_unguarded',
+    'Sbepp.Properties.C09.no_unguarded_sites',
     'Sbepp.Properties.C09.fixed_sites_guarded',
-    'Sbepp.Properties.C09.run_no_crash_false',
-    'Sbepp.Properties.C09.crash_only_at_unguarded',
-    'Sbepp.Properties.C09.run_no_crash_partial',
+    'Sbepp.Properties.C09.run_no_crash',
     'Sbepp.Properties.C09.run_terminates',
     'Sbepp.Properties.C09.run_fuel_stable',
     'Sbepp.Properties.C09.rejected_leaves_no_files_false',
     'Sbepp.Properties.C09.rejected_leaves_no_files_partial',
     'Sbepp.Properties.C09.rejected_leaves_no_files_if_open_succeeds',
     'Sbepp.Properties.C09.ok_writes_all_files',
-    # the concrete witnesses of the two remaining refutations (replayed on the real sbeppc below)
-    'Sbepp.Properties.C09.witness_depth',
+    # the concrete witness of the remaining refutation (replayed on the real sbeppc below)
     'Sbepp.Properties.C09.witness_files_after_reject',
     # the former witnesses: the model (like the fixed code) answers with a diagnostic / accepts
     'Sbepp.Properties.C09.brace_arg_is_diagnosed',
@@ -57,6 +54,7 @@ THEOREMS = [
     'Sbepp.Properties.C09.const_char_is_parsed',
     'Sbepp.Properties.C09.include_cycle_is_diagnosed',
     'Sbepp.Properties.C09.include_of_main_is_diagnosed',
+    'Sbepp.Properties.C09.deep_nesting_is_diagnosed',
 ]
 
 TIMEOUT = 25
@@ -340,6 +338,14 @@ def _deep(n):
         '</composite>' * n
 
 
+def _deep_groups(n):
+    return '<message name="M" id="1">' + ''.join(
+        '<group name="g%d" id="%d"><field name="f%d" id="%d" type="uint8"/>' % (i, i % 60000 + 1, i, i % 60000 + 1)
+        for i in range(n)) + '</group>' * n + '</message>'
+
+
+GSE = ('<composite name="groupSizeEncoding"><type name="blockLength" primitiveType="uint16"/>'
+       '<type name="numInGroup" primitiveType="uint16"/></composite>')
 ENUM = '<enum name="E" encodingType="char"><validValue name="A">A</validValue></enum>'
 
 def _incl(href):
@@ -351,8 +357,22 @@ def _incl(href):
 #   expected 'diag' / 'ok': a former defect, fixed in /repo (regex on the diagnostic line); a crash here is
 #   reported like any other failure, so reverting a fix makes the check fail on its own case
 WITNESSES = [
-    ('witness_depth', {'files': {'schema.xml': _schema(_deep(20000))}, 'argv': garble.DEFAULT_ARGV,
-                       'mutation': 'witness'}, 'abort', r'asan:stack-overflow|signal-11'),
+    ('deep_nesting_is_diagnosed (65 composites)', {'files': {'schema.xml': _schema(_deep(65))}, 'argv': garble.DEFAULT_ARGV,
+                                                   'mutation': 'fixed'}, 'diag', r'nesting is too deep, at most 64 levels'),
+    ('deep_nesting_is_diagnosed (500000 composites)', {'files': {'schema.xml': _schema(_deep(500000))},
+                                                       'argv': garble.DEFAULT_ARGV, 'mutation': 'fixed'},
+     'diag', r'nesting is too deep, at most 64 levels'),
+    ('deep_nesting_is_diagnosed (65 groups)', {'files': {'schema.xml': _schema(GSE, _deep_groups(65))},
+                                               'argv': garble.DEFAULT_ARGV, 'mutation': 'fixed'},
+     'diag', r'nesting is too deep, at most 64 levels'),
+    ('deep_nesting_is_diagnosed (200000 groups)', {'files': {'schema.xml': _schema(GSE, _deep_groups(200000))},
+                                                   'argv': garble.DEFAULT_ARGV, 'mutation': 'fixed'},
+     'diag', r'nesting is too deep, at most 64 levels'),
+    # the limit fits the stack of every pass: 64 levels compile under ASan (an assumption of `Sound`, observed here)
+    ('deep_nesting_is_diagnosed (64 composites are compiled)', {'files': {'schema.xml': _schema(_deep(64))},
+                                                                'argv': garble.DEFAULT_ARGV, 'mutation': 'fixed'}, 'ok', r''),
+    ('deep_nesting_is_diagnosed (64 groups are compiled)', {'files': {'schema.xml': _schema(GSE, _deep_groups(64))},
+                                                            'argv': garble.DEFAULT_ARGV, 'mutation': 'fixed'}, 'ok', r''),
     ('witness_files_after_reject',
      {'files': {'schema.xml': _schema(msgs='<message name="M" id="1"/>')},
       'argv': ['--schema-name', 'x' * 255] + garble.DEFAULT_ARGV, 'mutation': 'witness'},
@@ -638,6 +658,8 @@ def run(chk):
     chk.assumptions += [
         'the guard named for each `guarded` site in Sbepp.Gen.Pipeline.guardTable really dominates the access in the C++ '
         '(audited by hand, exercised by the hardened fuzzing; not proved)',
+        'max_nesting_depth = 64 levels of composites/groups fit the stack of every recursive pass (observed: the 64-level '
+        'cases compile under ASan; part of `Sound`)',
         'pugixml, {fmt}, libstdc++ are not modelled; their memory safety on these inputs is observed by ASan/UBSan',
         'the sanitizer build (-O1, ASan, UBSan, _GLIBCXX_ASSERTIONS, assert on) reaches the same decisions as a release build',
     ]
